@@ -200,7 +200,7 @@ def rule_p(ctx):
            'computations are all executed before the executor exits')
     if handler is not None:
         calls = [s for s in handler.body if isinstance(s, ast.Expr) and isinstance(s.value, ast.Call)
-                 and A.is_name(s.value.func, 'terminate')]
+                 and A.is_name(s.value.func, L.n_terminate)]
         ok = len(calls) == 1 and len(calls[0].value.args) == 2 and A.is_name(calls[0].value.args[0], L.executor or '\0') \
             and A.is_name(calls[0].value.args[1], L.q) and isinstance(handler.body[-1], ast.Raise) and handler.body[-1].exc is None \
             and handler.body.index(calls[0]) < len(handler.body) - 1
@@ -213,7 +213,7 @@ def rule_p(ctx):
     rep.ob('P1', 'parallel_utils.lazy_parallel_map::handler-inside-the-executor-context', ok, L.with_, '')
     # P3: terminate() can only cancel what is in the queue: no future may live outside it while the generator is
     # suspended, i.e. every submit(...) result goes straight into q.put(...)
-    subs = [n for n in A.walk_stmts(L.with_.body) if isinstance(n, ast.Call) and A.is_name(n.func, 'submit')]
+    subs = [n for n in A.walk_stmts(L.with_.body) if isinstance(n, ast.Call) and A.is_name(n.func, L.n_submit)]
     rep.floor('submit call sites', len(subs), 1)
     for sc in subs:
         par = A.parent(sc)
